@@ -1,13 +1,19 @@
-import Rooc.Wire
-import Rooc.Oracle
+import Rooc.Drv.C01
+import Rooc.WellFormed
 namespace Rooc.Drv.C08
 open Rooc Sexp
+/-- C08 shares the linearizer model requests of C01. -/
+def handle (α : Type) [Arith α] [Wire α] : List Sexp → Sexp := Drv.C01.handle α
 
-/-- model requests for C08 (run at `Float` for the exact diff, at `Ext Rat` as oracle). -/
-def handle (α : Type) [Arith α] [Wire α] : List Sexp → Sexp
-  | _ => app "err" [.atom "bad-request"]
-
-/-- exact oracle: the PROPERTY evaluated on the implementation's own answer. -/
+/-- exact oracle: the well-formedness predicate on the implementation's linear model. -/
 def oracle : List Sexp → Sexp
+  | [.atom _, m, lm] =>
+    match (Model.dec m : Option (Model (Ext Rat))), (LinModel.dec lm : Option (LinModel (Ext Rat))) with
+    | some m, some lm =>
+      let r := WF.report m lm
+      match r.failing with
+      | [] => app "ok" []
+      | f :: _ => app "violation" [.atom f, .list (r.failing.map .atom)]
+    | _, _ => app "err" [.atom "decode"]
   | _ => app "err" [.atom "bad-request"]
 end Rooc.Drv.C08
